@@ -45,6 +45,7 @@ import (
 	"sort"
 	"strings"
 	"sync"
+	"sync/atomic"
 	"testing"
 
 	appsv1 "k8s.io/api/apps/v1"
@@ -53,6 +54,7 @@ import (
 	"k8s.io/apimachinery/pkg/api/meta"
 	"k8s.io/apimachinery/pkg/api/resource"
 	metav1 "k8s.io/apimachinery/pkg/apis/meta/v1"
+	kruntime "k8s.io/apimachinery/pkg/runtime"
 	ktesting "k8s.io/client-go/testing"
 
 	vs "github.com/ovrclk/akash/verifsupport"
@@ -152,10 +154,16 @@ type vC11Run struct {
 	c     *vC11Case
 	phase string
 	seen  map[string]bool
+	// fault: the write that was answered with an injected API error ("" = none)
+	fault string
 }
 
 func (r *vC11Run) violCase(rule, trigger, detail string, replay interface{}) {
 	key := "C11/" + rule + "/" + trigger
+	if r.fault != "" {
+		key = "C11/" + rule + "/api-fault:" + strings.Replace(r.fault, " ", "-", -1) + "/" + trigger
+		detail = "after an injected API error on '" + r.fault + "': " + detail
+	}
 	if r.seen[r.phase+key] {
 		return
 	}
@@ -285,6 +293,122 @@ func vC11RunCase(res *vs.Result, reg *vC11Registry, c *vC11Case) {
 			}
 		}
 		prevIdx = idx
+	}
+}
+
+// vC11FaultPass: API faults at every write of Deploy.  On the create path
+// the k-th mutating request (create / update / patch /
+// delete / delete-collection, on either clientset) is answered with an error,
+// for every k up to the number of writes a fault-free Deploy makes; Deploy
+// stops wherever it stops, and whatever exists then is judged by the same
+// oracle (with "deploy failed": completeness is not demanded, only that
+// nothing that exists is less confined than the statement allows).
+func vC11FaultPass(res *vs.Result, reg *vC11Registry, c *vC11Case) {
+	defer func() {
+		if p := recover(); p != nil {
+			res.Inconclusive(fmt.Sprintf("harness panic in the fault pass of case %d: %v", c.Index, p))
+		}
+	}()
+	mutating := func(a ktesting.Action) bool {
+		switch a.GetVerb() {
+		case "create", "update", "patch", "delete", "delete-collection":
+			return true
+		}
+		return false
+	}
+	setup := func(withCreate bool) (*vC11Env, map[string]string, bool) {
+		env := vC11NewEnv(c.Settings)
+		if err, p := env.Deploy(c.Bystander, vC11BystanderGroup(c)); err != nil || p != "" {
+			return nil, nil, false
+		}
+		if withCreate {
+			if err, p := env.Deploy(c.Lease, c.Create); err != nil || p != "" {
+				return nil, nil, false
+			}
+		}
+		w0, err := env.World()
+		if err != nil {
+			return nil, nil, false
+		}
+		snap := w0.Index()
+		if withCreate {
+			// the lease's own objects are not bystanders
+			ns := vC11NS(c.Lease)
+			for k := range snap {
+				kind := k[:strings.Index(k, "/")]
+				if strings.HasPrefix(k, "Manifest/") || k == "Namespace//"+ns || strings.HasPrefix(k[len(kind):], "/"+ns+"/") {
+					delete(snap, k)
+				}
+			}
+		}
+		env.kc.ClearActions()
+		env.ac.ClearActions()
+		return env, snap, true
+	}
+	// (create path only: after a failed *update* an object may legitimately
+	// still be the one generated from the earlier manifest, which this oracle
+	// does not model)
+	for pi, phase := range []string{"create"} {
+		g, prev := &c.Create, (*vC11Group)(nil)
+		// how many writes does the fault-free call make?
+		env, _, ok := setup(pi == 1)
+		if !ok {
+			return
+		}
+		if err, p := env.Deploy(c.Lease, *g); err != nil || p != "" {
+			return
+		}
+		writes := 0
+		for _, a := range append(env.kc.Actions(), env.ac.Actions()...) {
+			if mutating(a) {
+				writes++
+			}
+		}
+		for k := 1; k <= writes; k++ {
+			env, snap, ok := setup(pi == 1)
+			if !ok {
+				return
+			}
+			var n int32
+			var failedOn string
+			react := func(a ktesting.Action) (bool, kruntime.Object, error) {
+				if !mutating(a) {
+					return false, nil, nil
+				}
+				if int(atomic.AddInt32(&n, 1)) == k {
+					failedOn = a.GetVerb() + " " + a.GetResource().Resource
+					return true, nil, fmt.Errorf("verif: injected API fault at write %d (%s)", k, failedOn)
+				}
+				return false, nil, nil
+			}
+			env.kc.PrependReactor("*", "*", react)
+			env.ac.PrependReactor("*", "*", react)
+			run := &vC11Run{res: res, reg: reg, c: c, phase: fmt.Sprintf("%s-fault", phase), seen: map[string]bool{}}
+			err, p := env.Deploy(c.Lease, *g)
+			kActs, aActs := env.kc.Actions(), env.ac.Actions()
+			w, werr := env.World()
+			if werr != nil {
+				res.Inconclusive("read-back failed in the fault pass: " + werr.Error())
+				return
+			}
+			res.Eval(1)
+			res.Count("fault_points_checked", 1)
+			res.Count("fault_points:"+phase, 1)
+			if strings.Contains(failedOn, "networkpolicies") {
+				res.Count("fault_points_on_a_policy_write", 1)
+			}
+			switch {
+			case p != "":
+				res.Count("fault_deploy_panicked", 1)
+			case err == nil:
+				res.Count("fault_swallowed_deploy_reported_success", 1)
+				res.Count("fault_swallowed:"+failedOn, 1)
+			default:
+				res.Count("fault_deploy_reported_error", 1)
+			}
+			run.fault = failedOn
+			run.check(kActs, aActs, w, w.Index(), snap, g, prev, true)
+		}
 	}
 }
 
@@ -488,6 +612,10 @@ func (r *vC11Run) check(actions, manifestActions []ktesting.Action, w *vC11World
 	}
 	for _, s := range g.Services {
 		if deps[s.Name] == nil {
+			if deployFailed {
+				res.Count("object_missing_after_failed_deploy:Deployment", 1)
+				continue
+			}
 			res.Count("expected_object_missing:Deployment", 1)
 			if !deployFailed {
 				res.Extra("a_missing_deployment", fmt.Sprintf("case %d %s: service %q", c.Index, r.phase, s.Name))
@@ -1012,10 +1140,11 @@ func TestVerif_C11(t *testing.T) {
 			return
 		}
 		vC11RunCase(res, reg, &c)
+		vC11FaultPass(res, reg, &c)
 		return
 	}
 
-	for _, f := range []string{"cases_netpol_on", "cases_netpol_off", "cases_runtime_class:default", "cases_runtime_class:none", "cases_runtime_class:gvisor",
+	for _, f := range []string{"fault_points_checked", "fault_points:create", "fault_deploy_reported_error", "cases_netpol_on", "cases_netpol_off", "cases_runtime_class:default", "cases_runtime_class:none", "cases_runtime_class:gvisor",
 		"runtime_class_applied", "commit_level_gt1_checked", "commit_level_le1_checked", "expose_global_direct", "expose_http_ingress", "expose_udp", "expose_as_differs",
 		"env_akash_override_attempt", "update_removed_object", "collision_family_ids", "containers_checked", "services_checked", "ingresses_checked",
 		"manifest_records_checked", "bystander_objects_compared", "client_requests_audited", "namespace_names_recorded", "policy_namespace_selectors_checked",
@@ -1028,6 +1157,9 @@ func TestVerif_C11(t *testing.T) {
 	vs.Parallel(n, runtime.NumCPU(), func(i int) {
 		c := vC11GenCase(seed, i)
 		vC11RunCase(res, reg, &c)
+		if i%vs.Scale(8, 4) == 0 {
+			vC11FaultPass(res, reg, &c)
+		}
 	})
 	if e := res.Counter("deploy_errors") + res.Counter("deploy_panics"); e > 0 {
 		res.Inconclusive(fmt.Sprintf("Deploy failed on %d generated inputs; those cases were judged only on what had been written", e))
